@@ -60,7 +60,7 @@ package hls
 // ---- C10: the playlist window --------------------------------------------------------------------------------------
 // invariant: at most three segments, none nil, each with its file, consecutive sequence numbers
 // (the window never holds more than four entries, so the quantifiers range over constant bounds: ground facts)
-//@ spec func segsOK(s []*segment) bool = len(s) <= 4 && forall(i, 0, 4, i < len(s) ==> s[i] != nil && s[i].file != nil) && forall(i, 1, 4, i < len(s) ==> s[i].sequenceNo == s[i-1].sequenceNo + 1)
+//@ spec func segsOK(s []*segment) bool = len(s) <= 4 && forall(i, 0, 4, i < len(s) ==> s[i] != nil && s[i].file != nil && 0 <= ghostInt(s[i].file, "deletes") && ghostInt(s[i].file, "deletes") < 1<<40) && forall(i, 1, 4, i < len(s) ==> s[i].sequenceNo == s[i-1].sequenceNo + 1)
 //@ spec func plOK(pl *Playlist) bool = pl != nil && len(pl.segments) <= 3 && segsOK(pl.segments)
 
 // clearSegments keeps exactly the last `remain` segments in order and asks every dropped segment's file to delete itself
@@ -70,15 +70,20 @@ package hls
 //@   local i int
 //@   loop 0: modifies pl.segments[:cap(pl.segments)], ghostAll("deletes")
 //@   loop 0: invariant 0 <= i && i <= len(pl.segments) - remain && sameHdr(pl.segments, old(pl.segments)) && pl == old(pl)
+//@   loop 0: invariant forall(j, 0, i, ghostInt(old(pl.segments[j]).file, "deletes") >= old(ghostInt(pl.segments[j].file, "deletes")) + 1) && forall(j, 0, len(pl.segments), ghostInt(old(pl.segments[j]).file, "deletes") >= old(ghostInt(pl.segments[j].file, "deletes")) && ghostInt(old(pl.segments[j]).file, "deletes") <= old(ghostInt(pl.segments[j].file, "deletes")) + i)
 //@   loop 0: invariant forall(j, i, len(pl.segments), pl.segments[j] == old(pl.segments[j]) && pl.segments[j] != nil && pl.segments[j].file != nil && pl.segments[j].sequenceNo == old(pl.segments[j].sequenceNo))
 //@   loop 0: decreases len(pl.segments) - remain - i
 //@   split len(pl.segments) > remain
 //@   ensures old(len(pl.segments)) <= remain ==> sameHdr(pl.segments, old(pl.segments)) && forall(j, 0, len(pl.segments), pl.segments[j] == old(pl.segments[j]))
 //@   ensures old(len(pl.segments)) > remain ==> len(pl.segments) == remain && forall(j, 0, remain, pl.segments[j] == old(pl.segments[len(pl.segments) - remain + j]))
+// bounded storage: the release of every evicted segment's storage is attempted before the call returns (a delayed
+// retry is scheduled only when that attempt fails) - nothing is left to a later job that could hit a file re-created
+// under the same name by a new session of the same stream
+//@   ensures forall(j, 0, old(len(pl.segments)) - remain, ghostInt(old(pl.segments[j]).file, "deletes") >= old(ghostInt(pl.segments[j].file, "deletes")) + 1)
 
 // addSegment appends the new segment and keeps the last three (bounded storage: older ones are deleted)
 //@ func (pl *Playlist) addSegment(seg *segment) ()
-//@   requires plOK(pl) && !held(&pl.l) && seg != nil && seg.file != nil && (len(pl.segments) > 0 ==> seg.sequenceNo == pl.segments[len(pl.segments)-1].sequenceNo + 1)
+//@   requires plOK(pl) && !held(&pl.l) && seg != nil && seg.file != nil && 0 <= ghostInt(seg.file, "deletes") && ghostInt(seg.file, "deletes") < 1<<40 && (len(pl.segments) > 0 ==> seg.sequenceNo == pl.segments[len(pl.segments)-1].sequenceNo + 1)
 //@   modifies held(&pl.l), pl.segments, pl.segments[:cap(pl.segments)], ghostAll("deletes"), all()
 //@   split len(pl.segments) == 0, len(pl.segments) == 1, len(pl.segments) == 2, len(pl.segments) < cap(pl.segments)
 //@   ensures !held(&pl.l)
